@@ -152,3 +152,131 @@ func TestC20ExploreHeld(t *testing.T) {
 	fmt.Println("excluded:", excl)
 	fmt.Println("outcomes:", outc)
 }
+
+// TestC20ExploreAlias (C20_EXPLORE_ALIAS=<anything>) enumerates value x hops (every single hop, and with
+// C20_EXPLORE_ALIAS=2 every pair) x binder x direction x write form of the alias sub-check - including the
+// struct / array values the generator leaves out - and prints every combination whose chained program
+// differs from its baseline, grouped by signature and (value, last hop, binder).
+func TestC20ExploreAlias(t *testing.T) {
+	mode := os.Getenv("C20_EXPLORE_ALIAS")
+	if mode == "" {
+		t.Skip("development aid")
+	}
+	hops := []string{}
+	seen := map[string]bool{}
+	for _, hp := range aliasHops {
+		if !seen[hp] {
+			seen[hp] = true
+			hops = append(hops, hp)
+		}
+	}
+	var chains [][]string
+	for _, a := range hops {
+		chains = append(chains, []string{a})
+		if mode == "2" {
+			for _, b := range hops {
+				chains = append(chains, []string{a, b})
+			}
+		}
+	}
+	binders := []string{}
+	for _, b := range append(append([]string{}, aliasCopyBinders...), aliasShareBinders...) {
+		if !seen["b:"+b] {
+			seen["b:"+b] = true
+			binders = append(binders, b)
+		}
+	}
+	count := map[string]int{}
+	first := map[string]string{}
+	total, excl, errs := 0, map[string]int{}, 0
+	for i := range aliasVals {
+		v := &aliasVals[i]
+		if mode == "2" && v.cat != "mod" && v.name != "sl_ints" && v.name != "mp_str" && v.name != "pt_int5" {
+			continue
+		}
+		for _, ch := range chains {
+			for _, b := range binders {
+				for _, dir := range []string{"new", "old", "both"} {
+					for w := range v.writes {
+						if mode == "2" && (dir == "old" || w > 1) {
+							continue
+						}
+						c := ACase{V: v.name, Chain: append([]string{}, ch...), Binder: b, Dir: dir, WN: w, WO: w}
+						if os.Getenv("C20_EXPLORE_NOFIX") == "" {
+							fixACase(&c)
+						}
+						o := &h.Obs{}
+						f := aliasOracle(c, o)
+						total++
+						if o.Excluded != "" {
+							excl[o.Excluded]++
+							if o.Excluded == "HARNESS_parse_error" && excl[o.Excluded] < 6 {
+								fmt.Println("PARSE ERROR:\n" + o.Key[len(prelude):])
+							}
+						}
+						for _, cl := range o.Classes {
+							if cl == "alias:outcome:error" {
+								errs++
+								if os.Getenv("C20_EXPLORE_ERR") != "" {
+									fmt.Println("ERROR OUTCOME:", c.V, c.Chain, c.Binder, c.Dir, w)
+								}
+							}
+						}
+						if f != nil {
+							k := fmt.Sprintf("%s value=%s chain=%v binder=%s", f.Sig, c.V, c.Chain, c.Binder)
+							count[k]++
+							if _, ok := first[k]; !ok {
+								first[k] = f.Msg
+							}
+						}
+					}
+				}
+			}
+		}
+	}
+	var keys []string
+	for k := range count {
+		keys = append(keys, k)
+	}
+	sort.Strings(keys)
+	for _, k := range keys {
+		fmt.Printf("%5d %s\n", count[k], k)
+	}
+	if os.Getenv("C20_EXPLORE_MSG") != "" {
+		for _, k := range keys {
+			fmt.Printf("=== %s\n%s\n", k, first[k])
+		}
+	}
+	fmt.Println("total:", total, "excluded:", excl, "baseline errors:", errs, "differing groups:", len(keys))
+}
+
+// TestC20ExploreAliasRandom (C20_EXPLORE_ALIAS_RANDOM=<anything>; -rapid.checks=<n>) runs generated cases of
+// the alias sub-check through its oracle without stopping and prints the signatures.
+func TestC20ExploreAliasRandom(t *testing.T) {
+	if os.Getenv("C20_EXPLORE_ALIAS_RANDOM") == "" {
+		t.Skip("development aid")
+	}
+	count := map[string]int{}
+	first := map[string]string{}
+	excl := map[string]int{}
+	n := 0
+	rapid.Check(t, func(rt *rapid.T) {
+		c := genACase(rt)
+		o := &h.Obs{}
+		f := aliasOracle(c, o)
+		n++
+		if o.Excluded != "" {
+			excl[o.Excluded]++
+		}
+		if f != nil {
+			count[f.Sig]++
+			if _, ok := first[f.Sig]; !ok {
+				first[f.Sig] = f.Msg
+			}
+		}
+	})
+	for s, k := range count {
+		fmt.Printf("%5d %s\n%s\n", k, s, first[s])
+	}
+	fmt.Println("cases:", n, "excluded:", excl, "signatures:", len(count))
+}
